@@ -34,6 +34,9 @@ RESERVED_NUMBER = {"012": 99, "102030": 15, "abc": 99}   # 15 lies between the c
 # (name, python type, renamings that can be stored in that dtype)
 DTYPES = [("float", float, ["012", "102030"]),
           ("int", int, ["012", "102030"]),
+          # narrow and unsigned integer label arrays (an image data set's uint8 labels)
+          ("uint8", np.uint8, ["012", "102030"]),
+          ("int32", np.int32, ["012", "102030"]),
           ("str", str, ["abc"]),
           ("object", object, ["012", "abc"])]
 
@@ -57,8 +60,10 @@ def storable(dname, skind):
     """can an array of that dtype hold an entry equal to the sentinel?"""
     if dname == "float":
         return skind in ("nan", "num")
-    if dname == "int":
+    if dname in ("int", "int32"):
         return skind == "num"
+    if dname == "uint8":
+        return False          # (handled by name in configs_for: only a non-negative finite number can be stored)
     if dname == "str":
         return skind == "str"
     return True
@@ -233,7 +238,7 @@ def configs_for(case):
     for dname, dtype, rens in DTYPES:
         for ren in rens:
             for sname, skind in SENTINELS:
-                if has_missing and not storable(dname, skind):
+                if has_missing and not (storable(dname, skind) or (dname == "uint8" and sname == "reserved-number")):
                     continue     # the array cannot hold that sentinel
                 if sname == "inf" and dname != "float":
                     continue     # (only a float array can hold / be compared with an infinite sentinel)
